@@ -108,6 +108,22 @@ def tsdbSeries (db : Block) (r : Req) : Res (List Entry) :=
   | some [] => .invalid
   | some ms => .ok (selectSeries (serveTSDB r.without db.ext) ms db.series r.mint r.maxt)
 
+/-! ### sorted lists of ranks -/
+
+def insertNat (x : Nat) : List Nat → List Nat
+  | [] => [x]
+  | y :: ys => if x < y then x :: y :: ys else if x = y then y :: ys else y :: insertNat x ys
+
+/-- sorted, repeats kept -/
+def insertNatDup (x : Nat) : List Nat → List Nat
+  | [] => [x]
+  | y :: ys => if x ≤ y then x :: y :: ys else y :: insertNatDup x ys
+
+def sortNatsDup (xs : List Nat) : List Nat := xs.foldr insertNatDup []
+
+/-- sorted, without repeats -/
+def canonNats (xs : List Nat) : List Nat := xs.foldr insertNat []
+
 /-! ### label names -/
 
 def allNames (series : List Series) : List Nat := series.flatMap (fun s => s.lset.map (·.1))
@@ -124,15 +140,15 @@ def blockLabelNames (b : Block) (r : Req) : List Nat :=
 def bucketLabelNames (blocks : List Block) (r : Req) : List Nat :=
   (blocks.filter (blockOverlaps · r.mint r.maxt)).flatMap (blockLabelNames · r)
 
-/-- `TSDBStore.LabelNames`: the querier's names (stored names of the matching series, or all stored names
-    without matchers), plus the external names not asked to be dropped when there is any name at all -/
+/-- `TSDBStore.LabelNames`: the block querier's names — stored names of the series that satisfy the residual
+    matchers, whatever their chunks (the querier intersects postings, it does not look at chunk ranges) —
+    without repeats, then the external names not asked to be dropped are appended when there is any name at
+    all, and the whole is sorted (an external name that is also a stored name appears twice) -/
 def tsdbLabelNames (db : Block) (r : Req) : List Nat :=
   match filterExt db.ext r.matchers with
   | none => []
   | some ms =>
-    let res :=
-      if ms.isEmpty then allNames db.series
-      else allNames (db.series.filter fun s => matchesAll ms s.lset && !(chunksForTime s.chunks r.mint r.maxt).isEmpty)
+    let res := canonNats (allNames (db.series.filter fun s => matchesAll ms s.lset))
     if res.isEmpty then [] else res ++ extNames r.without db.ext
 
 /-! ### label values -/
@@ -168,17 +184,9 @@ def tsdbLabelValues (db : Block) (r : Req) (l : Nat) : List Nat :=
     if v != 0 then
       if ms.isEmpty then [v]
       else if (db.series.any fun s => matchesAll ms s.lset && !(chunksForTime s.chunks r.mint r.maxt).isEmpty) then [v] else []
-    else if ms.isEmpty then allValues db.series l
-    else allValues (db.series.filter fun s => matchesAll ms s.lset && !(chunksForTime s.chunks r.mint r.maxt).isEmpty) l
+    else allValues (db.series.filter fun s => matchesAll ms s.lset) l
 
 /-! ### canonical forms (what both sides print) -/
-
-def insertNat (x : Nat) : List Nat → List Nat
-  | [] => [x]
-  | y :: ys => if x < y then x :: y :: ys else if x = y then y :: ys else y :: insertNat x ys
-
-/-- sorted, without repeats -/
-def canonNats (xs : List Nat) : List Nat := xs.foldr insertNat []
 
 /-- `labels.Compare` on ranks: lexicographic over (name, value), a proper prefix first -/
 def lexLt : Labels → Labels → Bool
